@@ -235,6 +235,15 @@ func loadPool(env *runner.Env, harvest map[string][]trackHarvest) (*pool, error)
 		p.pssh = p.addShared("crypto/pssh.bin", b)
 	}
 
+	// crafted media segments without an init segment whose senc boxes have to be
+	// probed for their per-sample IV size: one parses with IV size 0 and with 8
+	// (ambiguous), one only with 8, one only with 16. A probe that remembers
+	// anything between calls makes the ambiguous one depend on what ran before.
+	for _, cs := range craftedSencSegments() {
+		s := p.addShared("file/"+cs.name, cs.data)
+		p.addInput(&input{id: cs.name, class: "file", data: s.data})
+	}
+
 	seenSample := map[[32]byte]bool{}
 	seenSEI := map[[32]byte]bool{}
 	seenPS := map[[32]byte]bool{}
@@ -549,5 +558,64 @@ func (p *pool) applyHarvest(s *shared, name string, ths []trackHarvest, seenSamp
 				}
 			}
 		}
+	}
+}
+
+type craftedSeg struct {
+	name string
+	data []byte
+}
+
+func be32b(v uint32) []byte { return []byte{byte(v >> 24), byte(v >> 16), byte(v >> 8), byte(v)} }
+
+func mkBox(typ string, payload ...[]byte) []byte {
+	n := 8
+	for _, p := range payload {
+		n += len(p)
+	}
+	out := append(be32b(uint32(n)), typ...)
+	for _, p := range payload {
+		out = append(out, p...)
+	}
+	return out
+}
+
+// craftedSencSegments builds styp+moof+mdat segments by hand (no library
+// call): one track, n samples of 2000 bytes, a senc box with the sub-sample
+// flag as last child of the traf.
+func craftedSencSegments() []craftedSeg {
+	e := []byte{0x00, 0x01, 0x00, 0x10, 0x00, 0x00, 0x07, 0xc0} // count=1, entry(16, 1984)
+	x := append(append(append(append(append(append([]byte{}, e...), e...),
+		0x00, 0x05, 0x00, 0x10, 0x00, 0x00, 0x00, 0x10), e...),
+		0x00, 0x10, 0x00, 0x00, 0x00, 0x10, 0x00, 0x10), e...)
+	y := append([]byte{0xa0, 0xa1, 0xa2, 0xa3, 0xa4, 0xa5, 0xa6, 0xa7}, e...)
+	z := append([]byte{0xb0, 0xb1, 0xb2, 0xb3, 0xb4, 0xb5, 0xb6, 0xb7, 0xb8, 0xb9, 0xba, 0xbb, 0xbc, 0xbd, 0xbe, 0xbf}, e...)
+	seg := func(n int, perSample []byte) []byte {
+		senc := mkBox("senc", be32b(2), be32b(uint32(n)), perSample)
+		mfhd := mkBox("mfhd", be32b(0), be32b(1))
+		tfhd := mkBox("tfhd", be32b(0x020000), be32b(1))
+		tfdt := mkBox("tfdt", be32b(0), be32b(0))
+		trunLen := 8 + 4 + 4 + 4 + 8*n
+		moofLen := 8 + len(mfhd) + 8 + len(tfhd) + len(tfdt) + trunLen + len(senc)
+		var entries []byte
+		for i := 0; i < n; i++ {
+			entries = append(entries, be32b(1024)...)
+			entries = append(entries, be32b(2000)...)
+		}
+		trun := mkBox("trun", be32b(0x000301), be32b(uint32(n)), be32b(uint32(moofLen+8)), entries)
+		moof := mkBox("moof", mfhd, mkBox("traf", tfhd, tfdt, trun, senc))
+		payload := make([]byte, 0, 2000*n)
+		for i := 0; i < n; i++ {
+			for j := 0; j < 2000; j++ {
+				payload = append(payload, byte(i+1))
+			}
+		}
+		styp := mkBox("styp", []byte("msdh"), be32b(0), []byte("msdh"), []byte("msix"))
+		return append(append(styp, moof...), mkBox("mdat", payload)...)
+	}
+	return []craftedSeg{
+		{"crafted-senc-ambiguous-iv0-or-iv8.m4s", seg(3, x)},
+		{"crafted-senc-iv8.m4s", seg(1, y)},
+		{"crafted-senc-iv16.m4s", seg(1, z)},
 	}
 }
